@@ -58,3 +58,35 @@ class Keeper:
         for x in list(self.items):
             if x in bad:
                 self.items.remove(x)
+
+
+class Record:
+    def with_status(self, status):
+        r = Record()
+        r.status = status
+        return r
+
+
+class Table:
+    def __init__(self):
+        self.rows = {}
+        self.low = {}
+
+    def lost_update(self, key, status):
+        row = self.rows[key]
+        if not isinstance(row, Record):
+            row = row.with_status(status)
+        row.status = status
+
+    def stored_update(self, key, status):
+        row = self.rows[key]
+        if not isinstance(row, Record):
+            row = row.with_status(status)
+            self.rows[key] = row
+        row.status = status
+
+    def zero_is_missing(self, key, value):
+        self.low[key] = min(self.low.get(key) or value, value)
+
+    def absent_is_missing(self, key, value):
+        self.low[key] = min(self.low.get(key, value), value)
